@@ -290,7 +290,7 @@ let rec enc_value (v : value) : string =
   | VRegexp s -> "r" ^ hxs s
   | VArray l -> "a(" ^ String.concat "," (List.map enc_value l) ^ ")"
   | VHash l -> "h(" ^ String.concat "," (List.sort compare (List.map (fun (k, x) -> enc_value k ^ "=" ^ enc_value x) l)) ^ ")"
-  | VIter (v, _) -> "ITER:" ^ enc_value v
+  | VIter (v, _) -> enc_value v
 
 let rec dec_value (s : string) : value =
   match s.[0] with
